@@ -16,6 +16,10 @@ if [ -n "${VP_RUN_REPO:-}" ] && [ "$(pwd)" != /verif ]; then
   grep -rl '"/repo/' sim --include=Cargo.toml | xargs sed -i "s#\"/repo/#\"$VP_RUN_REPO/#g"
   sed -i "s#--manifest-path /repo/Cargo.toml#--manifest-path $VP_RUN_REPO/Cargo.toml#" run
 fi
+if [ "$(pwd)" != /verif ]; then
+  # the snapshot must not build into /verif/target
+  sed -i "s#target-dir = \"/verif/target\"#target-dir = \"$(pwd)/target\"#" sim/.cargo/config.toml
+fi
 ./run setup > setup.log 2>&1 || { tail -20 setup.log; echo "SWEEP setup failed"; exit 2; }
 bad=0
 for s in "${seeds[@]}"; do
